@@ -44,6 +44,14 @@ ASSUMPTIONS = ['json / base64 / repr of floats are transport: exercised through 
                'with the json library as save_json / load_json use it on every jsonstr case; the file text itself is a tally',
                'strings travel to the Lean driver through an injective escape (tok) of the code points a Lean String / '
                'the JSON pipe cannot carry (surrogates, astral); the model treats str values as opaque',
+               'nested dictionaries have str keys only: the statement speaks of integer TOP-LEVEL keys (JSON object keys are '
+               'strings, and sort_keys=True raises TypeError on a nested dictionary mixing int and str keys): nested integer keys '
+               'are outside the claim and never generated',
+               'write_tsv is called with n_significant_figures in {default, 1, 2, 3, 4, 6, 10}; 0 is outside (no decimal point is '
+               'written: the cell IS an integer literal); exclude_fields is outside (the rows are then meant to come back '
+               'different); None / bool values of two-column tables are outside the value list of the statement (integer, float, '
+               'non-numeric string); a np.float32 parameter is generated when it holds the same number as the float (str() of '
+               'np.float32(0.1) is the literal 0.1, another number: outside "reads back equal" by construction of the file format)',
                'table and parameter files are text in the locale encoding by construction (write_tsv / write_python under '
                'LC_ALL=C raise UnicodeEncodeError on a non-ASCII cell): the locale is varied for the JSON layer only, '
                'whose file text is pure ASCII whatever the strings']
@@ -281,7 +289,7 @@ def same(a, b):
             return isinstance(b, (np.ndarray, np.generic)) and b.shape == () and b.dtype == a.dtype and bool(b == a)
         return same(a.item(), b)
     if isinstance(a, float):
-        return isinstance(b, float) and (a == b or (math.isnan(a) and math.isnan(b)))
+        return isinstance(b, float) and ((a == b and math.copysign(1, a) == math.copysign(1, b)) or (math.isnan(a) and math.isnan(b)))
     if isinstance(a, (list, tuple)):
         return isinstance(b, list) and len(a) == len(b) and all(same(x, y) for x, y in zip(a, b))
     if isinstance(a, dict):
@@ -446,7 +454,10 @@ def impl(case):
             rows = [{f: (c['int'] if 'int' in c else (npf(c['float']) if 'float' in c else c['text'])) for f, c in r}
                     for r in case['rows']]
             p = d / ('t.' + case['ext'])
-            M.write_tsv(p, rows, first_field=case.get('first'))
+            if case.get('nsf'):
+                M.write_tsv(p, rows, first_field=case.get('first'), n_significant_figures=case['nsf'])
+            else:
+                M.write_tsv(p, rows, first_field=case.get('first'))
             with p.open(newline='') as fh:          # the text as written (no newline translation)
                 text = fh.read()
             back = M.read_tsv(p)
@@ -500,6 +511,8 @@ def impl(case):
                     return np.bool_(v)
                 if case.get('npvalues') and isinstance(v, int):
                     return np.int32(v) if case['npvalues'] == 32 and abs(v) < 2 ** 31 else np.int64(v) if abs(v) < 2 ** 63 else v
+                if case.get('npvalues') == 32 and isinstance(v, float) and float(np.float32(v)) == v:
+                    return np.float32(v)        # a float32 holding the same number: str() writes a literal of that number
                 if case.get('npvalues') and isinstance(v, float):
                     return np.float64(v)
                 return v
@@ -539,7 +552,8 @@ def model_query(case, impl_res):
     if case['op'] == 'tsv':
         npf = {'32': np.float32, '64': np.float64}.get(str(case.get('npfloat')), float)
         rows = [[[f, ({'float': dbl(npf(c['float']))} if 'float' in c else c)] for f, c in r] for r in case['rows']]
-        return dict(p=PID, op='table', rows=rows, first=case.get('first'), tsv=case['ext'] == 'tsv', impl_text=text)
+        return dict(p=PID, op='table', rows=rows, first=case.get('first'), tsv=case['ext'] == 'tsv', impl_text=text,
+                    nsf=case.get('nsf') or 4)
     if case['op'] == 'simple':
         data = [[int(k), ({'int': v} if type(v) is int else ({'lit': repr(v)} if type(v) is float else {'text': v}))]
                 for k, v in case['data']]
@@ -763,6 +777,8 @@ def tally(rep, case, impl_res, ans):
                 rep.count(pre + 'value:' + x['t'])
                 if x['t'] == 'np':
                     rep.count(pre + 'np_scalar:' + x['dt'])
+                if x['t'] == 'float' and isinstance(x['f'], str):
+                    rep.count(pre + 'float:' + x['f'])
                 if x['t'] == 'arr' and x['dtype'] in ('longdouble', 'clongdouble'):
                     rep.count(pre + 'arr_dtype:' + x['dtype'])
                 if x['t'] == 'arr':
@@ -779,6 +795,8 @@ def tally(rep, case, impl_res, ans):
     elif case['op'] in ('tsv', 'simple', 'csv', 'params'):
         if case['op'] != 'params':
             rep.count('ext:' + case.get('ext', 'tsv' if case.get('tsv') else 'csv'))
+        if case['op'] == 'tsv':
+            rep.count('n_significant_figures:%s' % (case.get('nsf') or 'default'))
         # mechanism-level tie, never an alarm: is the written file the text the model writes, character by character?
         if isinstance(impl_res.get('ok'), dict) and isinstance(ans.get('ok'), dict) and 'text' in ans['ok']:
             rep.count('file_text_equals_model' if impl_res['ok'].get('text') == ans['ok']['text']
@@ -872,7 +890,7 @@ def rand_value(rng, depth=0):
     if t == 'int':
         return dict(t='int', v=rng.pick([0, -1, 7, 10 ** 12, -3, 2 ** 53 + 1, -(2 ** 63), 2 ** 64 - 1]))
     if t == 'float':
-        return dict(t='float', f=rng.pick([0.5, -2.25, 1e-9, 3.0, 1e300]))
+        return dict(t='float', f=rng.pick([0.5, -2.25, 1e-9, 3.0, 1e300, 0.1, 5e-324, 'nan', 'inf', '-inf', '-0.0']))
     if t == 'str':
         return dict(t='str', v=rng.pick(TEXTS + ['', '12', '__ndarray_']) if rng.random() < .5 else rand_ustr(rng))
     if t == 'np':
@@ -993,7 +1011,10 @@ def gen(tier, rng):
         npfloat = rng.pick([0, 0, 32, 64])
         if npfloat == 32 and any('float' in c and abs(c['float']) > 3e38 for r in rows for _, c in r):
             npfloat = 0         # would be inf as a float32: finite floats only
-        yield dict(p=PID, op='tsv', rows=rows, ext=ext, first=rng.pick([None, fields[-1], 'absent']), npfloat=npfloat, stale=rng.random() < .3)
+        # n_significant_figures: the default, or 1..10 passed by the caller (0 is outside: '%.0f' writes no point, the file
+        # then holds an integer literal - hypothesis n != 0 of cluster_table_roundtrip; real code: 2.5 comes back as int 2)
+        yield dict(p=PID, op='tsv', rows=rows, ext=ext, first=rng.pick([None, fields[-1], 'absent']), npfloat=npfloat, stale=rng.random() < .3,
+                   nsf=rng.pick([None, None, 1, 2, 3, 4, 6, 10]))
     for _ in range(300 if q else 5000):
         ids = rng.sample(list(range(0, 500)) + [-1, -20, 10 ** 6, 2 ** 40], rng.randrange(0, 6))
         data = []
